@@ -300,6 +300,13 @@ func addStringIntrinsics(m map[string]intrinsicFn) {
 				}
 				return strings.Repeat(x, int(n))
 			}
+			if n, ok := a[1].(*sym); ok && len(x) > 0 {
+				r := fr.r
+				if !r.branch(&sym{sx(">=", n.t, "0"), SBool}) {
+					panic(targetPanic{msg: "strings: negative Repeat count"})
+				}
+				return r.newRepeat(x, n.t, "repeat "+strconv.Quote(x))
+			}
 		}
 		panic(unsupported{"strings.Repeat on symbolic"})
 	}
